@@ -50,6 +50,10 @@ def get_connected_subgraph(
 
     subgraph: DiGraph = dag.subgraph({node_id for path in nx.all_simple_paths(dag, source, dest) for node_id in path})
 
+    # A subgraph view shares the dict of graph attributes with the graph it views: the name of the subgraph must not
+    # be written into the graph of the chart, which is shared by all runs
+    subgraph.graph = dict(subgraph.graph)
+
     subgraph.is_recurrent = is_recurrent
     subgraph.is_oneof = is_oneof
     subgraph.is_nested_oneof = is_nested_oneof
